@@ -48,6 +48,18 @@ Definition rstep_fb (s : rstate) (e : rstep) : rstate :=
   | RWrite _ => s'
   end.
 
+(* the fetch itself moves the dependency on (to d + 1, when d ends in 7) in its last poll, before it returns its value: the
+   fetch is superseded before it can deliver, so the completion amounts to that dependency write alone *)
+Definition rstep_self (s : rstate) (e : rstep) : rstate :=
+  match e with
+  | RComplete k =>
+      match nth_error (r_fetches s) k with
+      | Some (d, true) => if feeds d then rstep_fn s (RWrite (d + 1)) else rstep_fn s e
+      | _ => rstep_fn s e
+      end
+  | RWrite _ => rstep_fn s e
+  end.
+
 Open Scope string_scope.
 Definition show_rstate (s : rstate) : string :=
   String.concat "" ["value="; match r_value s with Some v => show_Z v | None => "none" end;
@@ -64,6 +76,14 @@ Fixpoint rtrace_fb (s : rstate) (es : list rstep) : list string :=
   | e :: r => let s' := rstep_fb s e in show_rstate s' :: rtrace_fb s' r
   end.
 Definition run_resource_fb (es : list rstep) : string := lines (show_rstate rinit :: rtrace_fb rinit es).
+Fixpoint rtrace_self (s : rstate) (es : list rstep) : list string :=
+  match es with
+  | [] => []
+  | e :: r => let s' := rstep_self s e in show_rstate s' :: rtrace_self s' r
+  end.
+Definition run_resource_self (es : list rstep) : string := lines (show_rstate rinit :: rtrace_self rinit es).
+Definition run_resources_self (l : list (list rstep)) : string :=
+  join (String.concat "" [nl; "=="; nl]) (map run_resource_self l).
 Definition run_resources_fb (l : list (list rstep)) : string :=
   join (String.concat "" [nl; "=="; nl]) (map run_resource_fb l).
 Definition run_resources (l : list (list rstep)) : string :=
